@@ -60,6 +60,11 @@ CLAIMS = {
    text="Decides the structural carriers of direction: only the direction-aware accessors, textto, scan and the (left-to-right-only) finders may write the text position (R-DIRACC); every text-consuming instruction the writer emits carries the node's Rtl bit, which is derived from node.Options (R-DIRBITS); the parser attaches every concatenation through reverseLeft() (R-REVERSE); lookahead arms clear and lookbehind arms set the direction before the node is created (R-LOOKDIR); left-to-right-only reasoning stays in left-to-right context (R-DIRCTX); sibling interpreter handlers agree on their position arithmetic, including the use of bump() (R-SIB); folds over the match sequence consult the direction (R-DIRFOLD). It does NOT decide that each right-to-left branch computes the mirror image (anchor pre-filters, Boyer-Moore tables, capture spans).",
    note="Trusted: the writer/finder tables in the rules name the accessor functions; finders named find…LeftToRight are accepted as left-to-right-only because R-RTLFILTER/R-MODE (C02/C03) show they are selected only for left-to-right programs.",
    ref="DESIGN.md §4 C15"),
+ "C16": dict(
+   technique="static analysis: observer/transformer contract checks over the CharSet methods (AST + types, guard dominance on go/cfg), who-may-write and range/guard checks on the ASCII table (SSA), parameter pass-through, lookup-dominance of accepted category names",
+   text="Decides that every lookup path and every normalisation treats a class as the same set: no function that inspects or rewrites ranges/categories ignores the subtraction, canonicalize normalises only under sub == nil, merge/enumeration operands are tested (R-SUB); callers of GetSetChars honour negation (R-NEGCHARS); the ASCII fast path is charInSlow tabulated over exactly 0..127, consulted only for 0 <= ch < 128, never copied and never followed by a mutation (R-BITMAP); a subtraction is parsed with the same case flag as its class (R-CASERECUR); a category name is accepted only if a table exists for it (R-CATTABLE). It does NOT decide membership itself: range arithmetic in canonicalize, the lowercase tables, category evaluation order, singleton values.",
+   note="Trusted: the exemption table of builders/serialisers (one reason per function; makeAnything/addSet/addLowercase exemptions carry side conditions that are checked).",
+   ref="DESIGN.md §4 C16"),
 }
 
 NOT_APPLICABLE = {
